@@ -151,3 +151,66 @@ Proof.
     assert (HB1 : bounded K s1) by (eapply bounded_step; [eassumption | rewrite (sys_label_id l Hl); lia | eassumption]).
     destruct (IH s1 s' I1 HH1 HB1 Hrest Hr) as (Hlen & R). split; [lia | exact R].
 Qed.
+
+(** ** where a maximal system run ends *)
+Definition sys_maximal (s : state) : Prop := forall l, sys_label l = true -> step s l = None.
+
+Lemma holdsH_holds p : holdsH p = true -> holds p = true.
+Proof. destruct p; simpl; congruence. Qed.
+
+Ltac enabled_contra2 Hmax l :=
+  exfalso; let Hx := fresh "Hx" in
+  pose proof (Hmax l eq_refl) as Hx; unfold step in Hx; rew_pcs; simpl in Hx;
+  repeat match type of Hx with context [if ?b then _ else _] => destruct b end; try discriminate.
+
+(** a call that holds closedLock and is not waiting for the handlers can move *)
+Lemma holder_not_waiting_moves s c :
+  InvC s -> rh_plain s -> rh_isclosed s = false -> sys_maximal s ->
+  holds (cp s c) = true -> cp s c = CWait.
+Proof.
+  intros IC P Hf Hmax Hh.
+  destruct (cp s c) eqn:E; simpl in Hh; try discriminate; try reflexivity.
+  - (* CHWant *)
+    destruct (handlersLock s) as [[c'|r]|] eqn:EL.
+    + pose proof (c_hl1 s IC c' EL) as H1. pose proof (c_lock2 s IC c' (holdsH_holds _ H1)) as H2.
+      assert (H3 : closedLock s = Some c) by (apply (c_lock2 s IC c); rewrite E; reflexivity).
+      assert (c' = c) by congruence. subst. rewrite E in H1. discriminate.
+    + pose proof (c_hl3 s IC r EL) as Hr. destruct (P Hf r) as [P1 P2].
+      destruct (rp s r) eqn:Er; simpl in Hr; try discriminate; try congruence.
+      enabled_contra2 Hmax (LRh r).
+    + enabled_contra2 Hmax (LClose c).
+  - enabled_contra2 Hmax (LClose c).
+  - enabled_contra2 Hmax (LClose c).
+  - enabled_contra2 Hmax (LClose c).
+  - enabled_contra2 Hmax (LClose c).
+Qed.
+
+Definition legitimately_held (s : state) : Prop :=
+  (exists m, mp s m = MRunning) \/ (exists h, hc s h = HCInSubClose) \/ early_cancel s = true.
+
+Theorem maximal_state s :
+  Inv s -> InvS s -> rh_plain s -> rh_isclosed s = false ->
+  fix5 s = true -> fix6 s = true -> fix16 s = true ->
+  sys_maximal s ->
+  forall c,
+    cp s c = CNone \/ (exists r, cp s c = CRet r) \/
+    (cp s c = CWait /\ legitimately_held s) \/
+    (cp s c = CWant /\ exists c', cp s c' = CWait /\ legitimately_held s).
+Proof.
+  intros I J P Hf F5 F6 F16 Hmax c. pose proof (i_c s I) as IC.
+  assert (Hwait : forall c0, cp s c0 = CWait -> legitimately_held s).
+  { intros c0 Hc0. apply (stuck_characterisation s c0 I J F5 F6 F16 Hc0 Hmax). }
+  destruct (cp s c) eqn:E.
+  - left. reflexivity.
+  - (* CWant *)
+    destruct (closedLock s) as [c'|] eqn:EL; [|enabled_contra2 Hmax (LClose c)].
+    pose proof (holder_not_waiting_moves s c' IC P Hf Hmax (c_lock1 s IC c' EL)) as Hw.
+    right. right. right. split; [reflexivity|]. exists c'. split; [assumption | apply (Hwait c' Hw)].
+  - pose proof (holder_not_waiting_moves s c IC P Hf Hmax) as Hw. rewrite E in Hw. specialize (Hw eq_refl). discriminate.
+  - pose proof (holder_not_waiting_moves s c IC P Hf Hmax) as Hw. rewrite E in Hw. specialize (Hw eq_refl). discriminate.
+  - pose proof (holder_not_waiting_moves s c IC P Hf Hmax) as Hw. rewrite E in Hw. specialize (Hw eq_refl). discriminate.
+  - right. right. left. split; [reflexivity | apply (Hwait c E)].
+  - pose proof (holder_not_waiting_moves s c IC P Hf Hmax) as Hw. rewrite E in Hw. specialize (Hw eq_refl). discriminate.
+  - pose proof (holder_not_waiting_moves s c IC P Hf Hmax) as Hw. rewrite E in Hw. specialize (Hw eq_refl). discriminate.
+  - right. left. exists r. reflexivity.
+Qed.
